@@ -415,4 +415,80 @@ def wfbs : List Ty → List Val → Bool
   | _, _ => false
 end
 
+/-! ### extension: the remaining entry points of archive.h / serialize_storage.h -/
+
+/-- `dump(const char *dat, uint16_t sz)`: `dump(sz); dump_data(dat, sz);` — the
+caller's length is converted to `uint16_t` at the call.  `dump(std::string_view)`
+is, statement for statement, `dump(igris::buffer)` = `dumpBuffer`. -/
+def dumpCharArr (bs : List Byte) : List Byte :=
+  dumpScalar .u16 (u16 bs.length) ++ dumpData bs (u16 bs.length)
+
+/-- `binary_buffer_reader::skip(int size)`: `ptr += size`.  Moving the cursor
+over bytes that are not there is treated like reading them (fault). -/
+def skipA (rem : List Byte) (n : Nat) : Option (List Byte) :=
+  match readN n rem with
+  | some (_, r) => some r
+  | none => none
+
+/-- `load(char *dat, uint16_t maxsz)` (after `fix: capped buffer loads skip
+the part of the payload that does not fit`):
+`load(sz); readsize = sz > maxsz ? maxsz : sz; load_data(dat, readsize); skip(sz - readsize);`
+Result = the bytes stored into `dat`. -/
+def loadCharArr (rem : List Byte) (maxsz : Nat) : Option (List Byte × List Byte) :=
+  match loadScalar .u16 rem with
+  | none => none
+  | some (sz, r) =>
+    let readsize := if u16 maxsz < sz then u16 maxsz else sz
+    match loadData r readsize with
+    | none => none
+    | some (bs, r2) =>
+      match skipA r2 (sz - readsize) with
+      | some r3 => some (bs, r3)
+      | none => none
+
+/-- `load(writable_buffer &buf)` with `buf.size() = cap` (after the same fix):
+`load(len); readsize = buf.size() < len ? buf.size() : len; load_data(buf.data(), readsize);
+skip(len - readsize); buf = buffer(buf.data(), readsize);` -/
+def loadWritable (rem : List Byte) (cap : Nat) : Option (List Byte × List Byte) :=
+  match loadScalar .u16 rem with
+  | none => none
+  | some (len, r) =>
+    let readsize := if cap < len then cap else len
+    match loadData r readsize with
+    | none => none
+    | some (bs, r2) =>
+      match skipA r2 (len - readsize) with
+      | some r3 => some (bs, r3)
+      | none => none
+
+/-- the capped loads as they were BEFORE the fix: no `skip`, the unread part of
+the payload stays in front of the reader -/
+def loadCappedOld (rem : List Byte) (cap : Nat) : Option (List Byte × List Byte) :=
+  match loadScalar .u16 rem with
+  | none => none
+  | some (len, r) => loadData r (if cap < len then cap else len)
+
+/-- `archive::data<T>{ptr, n}.reflect(r)` on the writer, `T` a scalar type:
+`r.do_data((char*)ptr, n * sizeof(T))` — the product is a `size_t`, `do_data`
+takes it as `uint16_t`; there is NO count on the wire. -/
+def encodeData (k : Sc) (vs : List Val) : List Byte :=
+  dumpData (vs.flatMap fun v => leBytes k.width v.bits) (vs.length * k.width)
+
+/-- cut a byte image into `n` scalars of `w` bytes (the array `T xs[n]` seen through `xs[i]`) -/
+def chunks (w : Nat) : Nat → List Byte → List Val
+  | 0, _ => []
+  | n + 1, bs => .sc (leVal (bs.take w)) :: chunks w n (bs.drop w)
+
+/-- `archive::data<T>{ptr, n}.reflect(r)` on the reader into a value-initialised
+array: `load_data((char*)ptr, (uint16_t)(n*sizeof(T)))`; the elements that the
+(wrapped) size does not reach stay zero. -/
+def decodeData (k : Sc) (n : Nat) (rem : List Byte) : Option (List Val × List Byte) :=
+  match loadData rem (n * k.width) with
+  | none => none
+  | some (bs, r) => some (chunks k.width n (bs ++ List.replicate (n * k.width - bs.length) 0#8), r)
+
+/-- `deserialize_storage::loads(size)`: `ret.resize(size)` (zero-filled), then
+the clamped `load(&*ret.begin(), size)` -/
+def loadsS (rem : List Byte) (size : Nat) : Option (List Byte × List Byte) := loadS rem size
+
 end Igris.C09
